@@ -43,6 +43,8 @@ func vhC16(kind int) {
 	vAssert("C16.relaystate-field-iff-given", okR == (relay != ""))
 	if okR {
 		vAssert("C16.relaystate-field-carries-the-value-escaped", vAnd(escR, rs == relay))
+		// markup-like text in the relay state must survive the page round trip unchanged
+		vAssert("C16.entity-like-relaystate-survives", vImplies(vContains(relay, "&lt;"), vAnd(escR, rs == relay)))
 	}
 }
 
